@@ -147,6 +147,11 @@ def ite(c, a, b, ty=None):
                 return b
             if b is UNDEF:
                 return a
+            # integer 0 stored over / merged with a pointer cell is the null pointer
+            if isinstance(a, int) and not isinstance(a, bool) and a == 0:
+                return ite(c, NULL, b)
+            if isinstance(b, int) and not isinstance(b, bool) and b == 0:
+                return ite(c, a, NULL)
             raise Unsupported('merge of pointer and non-pointer')
         return PIte(c, a, b)
     if a is UNDEF:
@@ -585,6 +590,8 @@ class Engine:
             if t.bits > 1 and isinstance(v, z3.ExprRef) and z3.is_bool(v):
                 return z3.If(v, 1, 0)
             return v
+        if t.kind == 'ptr' and isinstance(v, int) and not isinstance(v, bool) and v == 0:
+            return NULL   # zero bytes (memset / integer 0 store) read back as a pointer: the null pointer
         return v
 
     def access(self, st, p, ty, where, store=None):
@@ -596,6 +603,14 @@ class Engine:
                 return ite(p.c, a, b)
             # conditional store: old value merged
             for br, g in ((p.a, p.c), (p.b, p_not(p.c))):
+                if isinstance(br, Ptr) and br.obj is None:
+                    # null alternative of the merged pointer: undefined if its guard can hold here (obligation under
+                    # the guarded path condition); the execution continues on the other alternative only
+                    save = st.pc
+                    st.pc = self.simp(p_and(save, g))
+                    self.oblige(st, 'ub', 'null pointer dereference', False, where)
+                    st.pc = self.simp(p_and(save, p_not(g)))
+                    continue
                 old = self.access_guarded(st, br, ty, where, p_and(st.pc, g))
                 self.access(st, br, ty, where, store=ite(g, store, old))
             return None
@@ -781,6 +796,26 @@ class Engine:
         fl = ins.a.get('flags', ())
         # pointer-valued integers (ptrtoint results)
         if isinstance(a, (Ptr, PIte)) or isinstance(b, (Ptr, PIte)):
+            if op == 'sub' and (isinstance(a, PIte) or isinstance(b, PIte)) and isinstance(a, (Ptr, PIte)) and isinstance(b, (Ptr, PIte)):
+                # merged pointers: distribute over the alternatives whose guards are jointly feasible
+                def alts(p, g):
+                    if isinstance(p, PIte):
+                        return alts(p.a, p_and(g, p.c)) + alts(p.b, p_and(g, p_not(p.c)))
+                    return [(g, p)]
+                res = None
+                for ga, pa in alts(a, True):
+                    for gb, pb in alts(b, True):
+                        g = self.simp(p_and(ga, gb)) if not isinstance(p_and(ga, gb), bool) else p_and(ga, gb)
+                        if g is False:
+                            continue
+                        if isinstance(pa.obj, int) and isinstance(pb.obj, int) and pa.obj != pb.obj:
+                            if not self.feasible(p_and(st.pc, g)):
+                                continue
+                        v = self.binop(st, ins, pa, pb, where)
+                        res = v if res is None else ite(g, v, res)
+                if res is None:
+                    return UNDEF
+                return res
             if op == 'sub' and isinstance(a, Ptr) and isinstance(b, Ptr) and a.obj == b.obj:
                 return self.simp(zint(a.off) - zint(b.off)) if not (isinstance(a.off, int) and isinstance(b.off, int)) else a.off - b.off
             if op == 'add' and isinstance(a, (Ptr, PIte)) and not isinstance(b, (Ptr, PIte)):
@@ -797,6 +832,11 @@ class Engine:
                     st.mem[a.obj].name if a.obj in st.mem else a.obj, st.mem[b.obj].name if b.obj in st.mem else b.obj), False, where)
                 st.pc = False
                 return UNDEF
+            if (op == 'and' and isinstance(a, Ptr) and isinstance(a.obj, tuple) and a.obj[0] == 'fn' and a.off == 0
+                    and isinstance(b, int) and b == 1):
+                # Itanium member-function-pointer dispatch: `ptr & 1` tests the "virtual" tag; the address of a
+                # (non-virtual) function is even, which is what the ABI's encoding relies on
+                return 0
             raise Unsupported('integer op %s on pointer values' % op)
         conc = isinstance(a, int) and isinstance(b, int)
         if op in ('add', 'sub', 'mul'):
@@ -1325,7 +1365,14 @@ class Engine:
             za = zreal(a)
             self.oblige(st, 'fpspecial', 'sqrt of negative number', za >= 0, where)
             st.pc = p_and(st.pc, za >= 0)
-            r = self.fresh('real', 'sqrt')
+            # opt-in (registry symex={'sqrt_memo': True}): sqrt of the same concrete argument is the same
+            # algebraic number; reusing its variable keeps the number of algebraic unknowns small
+            memo = self.uf.setdefault('__sqrt_memo', {}) if (self.opts.get('sqrt_memo') and is_conc(a)) else None
+            r = memo.get(Fraction(a)) if memo is not None else None
+            if r is None:
+                r = self.fresh('real', 'sqrt')
+                if memo is not None:
+                    memo[Fraction(a)] = r
             st.pc = p_and(st.pc, z3.And(r >= 0, r * r == za))
             return r
         if name in ('floor', 'ceil', 'trunc', 'rint', 'nearbyint', 'round'):
